@@ -35,3 +35,7 @@ chmod 644 *
 # (`rsa_keygen_pubexp:4294967297`, a 33-bit public exponent), ed25519_7pub00 / ed25519_7pubz00 (public key starts / ends with
 # 0x00: seeds found by search), ed25519_7oids / p256_7oids / p384_7oids (private scalar or seed that contains the DER
 # contents of the algorithm OIDs of the OTHER key types; EC keys written as SEC1 without public key and completed by `openssl ec`)
+# round 7: ed25519_8attr (PKCS#8 v1 with the optional attributes [0] field, 108 octets), p256_8pnp (PKCS#8 whose inner
+# ECPrivateKey carries the curve parameters but no public key, 79 octets: short-form outer length), p256_8pp-opt (parameters
+# and public key, as some Java libraries write it; "-opt": a back end may refuse it) - all three written by a few lines of
+# Python from the scalar of p256_1 / a fixed seed
